@@ -20,6 +20,14 @@ CLAIMS = {
                  '(unknown nodes included) and every instant in [min-2,max+2]; every call must end in exactly the '
                  'outcome class the documented rule gives. Second-schedule runs check that interleaving of '
                  'independent clients does not change the final presence.'),
+    'C02': claim('exploration', 'DESIGN.md 7/C02',
+                 'deterministic simulation: observer sweep of ~45 query entry points after every step and over all instants at the end of each history',
+                 'Read-only observer riding on simulated histories (both classes, both modes, after rejected calls, on '
+                 'slices and conversions): every listed method and dn.* helper, for t omitted and every instant in '
+                 '[min-2,max+2], with nbunch None / single / subset / unknown members, is compared with the static '
+                 'graph the model gives at t. The simulator contributes reachable states and replay, not a fault '
+                 'dimension of its own. Four open findings (D06 D07 D08 D09, each pinned by an existing test) exempt '
+                 'narrowly described answers; exemption counts are in the evidence.'),
     'C03': claim('exploration', 'DESIGN.md 7/C03',
                  'deterministic simulation: timeline invariant after every step on root and derived replicas',
                  'The timelines exposed by the interaction views are compared with the model run list after every '
